@@ -331,6 +331,10 @@ class Parser:
                 self.next()
                 cols.append(self.ident())
             self.expect("punct", ")")
+        if self.at_kw("select"):
+            # INSERT ... SELECT: the row is the select's result columns, written only for rows the select yields
+            sub = self.parse_select()
+            return Stmt("INSERT", table=table, or_clause=orc, columns=cols, values=[c[0] for c in sub.cols], select=sub)
         self.expect_kw("values")
         self.expect("punct", "(")
         vals = [self.parse_expr()]
@@ -338,7 +342,7 @@ class Parser:
             self.next()
             vals.append(self.parse_expr())
         self.expect("punct", ")")
-        return Stmt("INSERT", table=table, or_clause=orc, columns=cols, values=vals)
+        return Stmt("INSERT", table=table, or_clause=orc, columns=cols, values=vals, select=None)
 
     def parse_update(self):
         self.expect_kw("update")
@@ -544,6 +548,11 @@ class Parser:
             return ("hole", t.val)
         if t.kind == "kw" and t.val == "null":
             return ("null",)
+        if t.kind == "kw" and t.val == "exists":
+            self.expect("punct", "(")
+            s = self.parse_select()
+            self.expect("punct", ")")
+            return ("exists", ("subselect", s))
         if t.kind == "op" and t.val == "-":
             e = self.parse_atom()
             return ("arith", "-", ("num", 0), e)
@@ -627,6 +636,8 @@ def placeholders(stmt_or_expr):
             sel(e[1])
         elif k == "isnull":
             expr(e[1])
+        elif k == "exists":
+            expr(e[1])
 
     def sel(s):
         for c, _a in s.cols:
@@ -647,6 +658,14 @@ def placeholders(stmt_or_expr):
         if s.verb == "INSERT":
             for i, v in enumerate(s.values):
                 expr(v, ("insert", i))
+            sub = getattr(s, "select", None)
+            if sub is not None:
+                refs = [(sub.source, None)] + list(sub.joins)
+                for ref, on in refs:
+                    if ref is not None and ref[0] == "subquery":
+                        sel(ref[1])
+                    expr(on)
+                expr(sub.where)
         elif s.verb == "UPDATE":
             if isinstance(s.sets, list):
                 for col, v in s.sets:
